@@ -167,6 +167,20 @@ def context_checks(tokenize, vocab, target):
                     ok = got is not None and got[2].startswith(want) and (got[0], got[1]) == (start, start + len(word))
                     if not ok:
                         probs.append(f'{target} grammar applied to {line!r}: operand {word!r} is classified as {got and got[2]!r}, not as {want}')
+    # several operations on one line (the assembler splits a line at every mnemonic): every head keeps its category
+    for (h1, s1), (h2, s2) in itertools.product(heads, repeat=2):
+        mids = [' '] + ([f' {regs[0]} ', f' {regs[0]}, 5 '] if regs else [' 5 '])
+        for mid in mids:
+            line = f'{h1}{mid}{h2}'
+            try:
+                toks = tokenize(line)
+            except tmlite.GrammarError as e:
+                probs.append(f'{target} grammar cannot be applied to {line!r}: {e}')
+                continue
+            for start, word, want in ((0, h1, s1), (len(h1) + len(mid), h2, s2)):
+                got = tmlite.scope_of(toks, start, start + len(word))
+                if got is None or got[2] != want or (got[0], got[1]) != (start, start + len(word)):
+                    probs.append(f'{target} grammar applied to {line!r}: {word!r} at column {start} is classified as {got and got[2]!r}, not as {want}')
     return probs
 
 
